@@ -14,6 +14,7 @@ from verif.core.runner import HarnessError
 from verif.vsched import runtime as vrt
 
 _INSTALLED = False
+ORIG_WD = {}   # real WorkingDirectory listing functions, saved before they are replaced
 EXIT_JITTER = 1e-3
 M = None  # namespace of imported product modules
 
@@ -134,6 +135,10 @@ def install():
         return [os.path.join(self.directory, 'vout%d' % i) for i, t in enumerate(VFS.times(self.directory))
                 if vrt.RT.base + _dt.timedelta(seconds=t) < date]
 
+    # the real listing functions stay reachable: C13 part C checks that the virtual listing above and the real code agree
+    ORIG_WD['output'] = storage.WorkingDirectory.output
+    ORIG_WD['outputSinceDate'] = storage.WorkingDirectory.outputSinceDate
+    ORIG_WD['isUpdatedSinceDate'] = storage.WorkingDirectory.isUpdatedSinceDate
     storage.WorkingDirectory.output = property(v_output)
     storage.WorkingDirectory.outputSinceDate = v_since
     storage.WorkingDirectory.outputBeforeDate = v_before
